@@ -298,9 +298,20 @@ package workflow
 //@   requires wfloop(l) && expr != nil && expr.Expr != nil
 //@   modifies nothing
 //@   ensures [the-group-is-looked-up-in-the-parent-node] result1 == nil ==> callarg(GetNodeByID, 1, 0) == expr.ParentNodePath && callrecv(ResolvedDependencies, 1) == callres(GetNodeByID, 1, 0)
-//@   ensures [absent-exactly-when-its-group-did-not-resolve] called(ResolvedDependencies, 1) && !indom(callres(ResolvedDependencies, 1, 0), expr.GroupNodePath) ==> result == nil && !called(Evaluate, 1)
-//@   ensures [present-value-is-the-evaluated-source] called(ResolvedDependencies, 1) && indom(callres(ResolvedDependencies, 1, 0), expr.GroupNodePath) ==> called(Evaluate, 1) && result == callres(Evaluate, 1, 0) && \
-//@        callrecv(Evaluate, 1) == any(expr.Expr) && callarg(Evaluate, 1, 0) == dataModel
+//@   ensures [absent-exactly-when-its-group-did-not-resolve] called(ResolvedDependencies, 1) && !indom(callres(ResolvedDependencies, 1, 0), expr.GroupNodePath) ==> result == nil && !called(evaluateExpression, 1)
+//@   ensures [present-value-is-the-evaluated-source] called(ResolvedDependencies, 1) && indom(callres(ResolvedDependencies, 1, 0), expr.GroupNodePath) ==> called(evaluateExpression, 1) && \
+//@        result == callres(evaluateExpression, 1, 0) && callarg(evaluateExpression, 1, 1) == expr.Expr && callarg(evaluateExpression, 1, 2) == dataModel
+//
+// Evaluation runs the expression library (and through it the built-in functions) on run-time data. Its
+// contract cannot promise that no panic is raised (integer division by zero was one): the function
+// recovers, so a panic becomes the error of this expression. On the paths without a panic the value
+// and the error are those of Evaluate.
+//@ func (*loopState).evaluateExpression
+//@   opt recovers
+//@   requires l != nil && expr != nil
+//@   modifies nothing
+//@   ensures [the-value-is-what-the-expression-evaluates-to] called(Evaluate, 1) && callrecv(Evaluate, 1) == any(expr) && callarg(Evaluate, 1, 0) == dataModel && \
+//@        result == callres(Evaluate, 1, 0) && result1 == callres(Evaluate, 1, 1)
 //
 // ---- Execute: one run of a prepared workflow ----
 //@ pred stepMapsOK(l *loopState) = typeis(l.data["steps"], map[string]any) && stepsOf(l) != nil && stepsOf(l) != l.data && allocated(stepsOf(l)) && \
